@@ -307,23 +307,30 @@ func scenario(seed int64, sn int) (int, int) {
 		go func() {
 			defer wg.Done()
 			r := rand.New(rand.NewSource(seed + 31337))
-			c := beginTran(r, true)
-			if c == nil {
-				return
-			}
-			td := prof.tables[0]
-			row := []int{td.dom[0], 0, 1}
-			c.force = row
-			c.output(td)
-			// updates to an identical record change nothing but count as writes
-			for i := 0; i < 10010 && !c.dead; i++ {
+			// retried when another client's conflicting write ends the attempt early
+			for attempt := 0; attempt < 6; attempt++ {
+				c := beginTran(r, true)
+				if c == nil {
+					return
+				}
+				td := prof.tables[0]
+				row := []int{td.dom[0], 0, 1}
 				c.force = row
-				c.forcePick = true
-				c.forceNew = row
-				c.updateQuiet(td)
+				c.output(td)
+				// updates to an identical record change nothing but count as writes
+				n := 0
+				for ; n < 10010 && !c.dead; n++ {
+					c.force = row
+					c.forcePick = true
+					c.forceNew = row
+					c.updateQuiet(td)
+				}
+				c.finish()
+				ntran.Add(1)
+				if n > 9000 {
+					break
+				}
 			}
-			c.finish()
-			ntran.Add(1)
 		}()
 	}
 	for c := 0; c < prof.clients && prof.pairs == 0; c++ {
